@@ -180,10 +180,13 @@ def run(v, tier, rng):
     if tot_enomem == 0:
         raise Broken("no injected failure was reported as ENOMEM: injection is not working")
     api = api_part(v, thorough, rdir)
+    # the inproc hand-off: the receiver's copy of a shared message cannot be allocated (spec wire/Inproc.tla: the named loss)
+    from checks.inproc import run_inproc
+    n_inproc = run_inproc(v, tier, mc=False, plans=("fail",))
     v.cov["oom"] = per_obj
     v.cov["oom_api"] = api
-    v.cov["traces_validated_against_impl"] = tot_enomem + tot_normal
-    v.cov["evaluations"] = tot_inj + sum(x["injections"] for x in api.values())
+    v.cov["traces_validated_against_impl"] = tot_enomem + tot_normal + n_inproc
+    v.cov["evaluations"] = tot_inj + sum(x["injections"] for x in api.values()) + n_inproc
     v.cov["distinct_nontrivial"] = v.cov["evaluations"]
     v.cov["rule"] = ("(state, action, k): every allocating step of the edge-cover walks of Lmq/IdMap/Msg with its k-th allocation failing, "
                      "k up to the number of allocations of that step (max 4); quick tier: each (state, action, k) once")
